@@ -222,6 +222,11 @@ def unit_arg(kind, ty="int"):
         vars_ = [{"name": "V0", "module": "main", "values": [a, b]}]
         kargs = {"args": [], "kwargs": [["y", {"var": "V0"}]], "starkw": True}
         eps = [{"id": "V0", "kind": "var_value", "n": 2}]
+    elif kind == "fn_as_argument":
+        # the function itself is handed to the kept function, which calls it: dds.keep(p, K, h1) with def K(x, y=0): x()
+        extra = [{"name": "h1", "module": "main", "params": [], "body": []}]
+        kargs = {"args": [{"inline": "h1", "as_function": True}], "kwargs": []}
+        eps = [{"id": "tag:h1", "kind": "body_tag", "n": 2}]
     elif kind == "rt_inline":
         extra = [{"name": "h1", "module": "main", "params": [], "body": []}]
         kargs = {"args": [{"inline": "h1"}], "kwargs": []}
@@ -247,6 +252,12 @@ def unit_arg(kind, ty="int"):
         raise ValueError(kind)
     spec = _scaffold([], core_params=params, extra_funcs=extra, vars_=vars_, eps=eps, root_items=root_items, kargs=kargs,
                      sid=f"U/arg/{kind}/{ty}", key=f"arg|kind={kind}|type={ty}")
+    if kind == "fn_as_argument":
+        for f in spec["funcs"]:
+            if f["name"] == "K":
+                f["params"] = [["x", None], ["y", "0"]]
+                f["body"] = [{"k": "raw", "text": "_r = x()"}, {"k": "const", "expr": "_r"}]
+                f["no_param_str"] = True
     if any(p.startswith("*") for p, _ in params):
         # keeping a function with catch-all parameters directly, dds.keep(p, f, ...) at the top level, is refused by dds with an
         # explanatory NotImplementedError ("use simpler sorts of arguments"): only calls seen in source are in the family
@@ -502,7 +513,7 @@ def unit_programs(level="quick"):
     for kind in ("lit_pos", "lit_kw", "lit_pos2", "lit_kw2", "default", "rt_local_const"):
         for ty in LIT:
             out.append(unit_arg(kind, ty))
-    for kind in ("rt_local_helper", "rt_local_helper_twice", "rt_var", "rt_var_starkw", "rt_var_starargs", "rt_var_starargs_defaults", "rt_var_starkw_defaults", "rt_inline", "rt_inline_kw", "rt_multiline", "rt_multiline_keep", "rt_ml2_lit", "rt_ml3_lit"):
+    for kind in ("rt_local_helper", "rt_local_helper_twice", "rt_var", "rt_var_starkw", "rt_var_starargs", "rt_var_starargs_defaults", "rt_var_starkw_defaults", "fn_as_argument", "rt_inline", "rt_inline_kw", "rt_multiline", "rt_multiline_keep", "rt_ml2_lit", "rt_ml3_lit"):
         out.append(unit_arg(kind))
     out += [unit_ext("fn"), unit_ext("var")]
     out += [unit_structural(k) for k in ("unrel", "reorder", "cmt_other")]
